@@ -882,7 +882,7 @@ Lemma sim_step : forall ever fin I S o, Sim ever fin I S -> guard c ever S o = 0
   exists fin', Sim (ever_after ever o) fin' (fst (idx_step u c trans I o)) (fst (rel_step u c trans S o)).
 Proof.
   intros ever fin I S o H Hg.
-  destruct o as [d|ids rid|i s rid|i|i|rs flag| |w xs|x|i| | |i v|i v|k v| | |i|i|t|ck|t kv sts|t sts limit offset|t sts|ids sts| | | |flag|n| |i|i|i|k|i|r].
+  destruct o as [d|ids rid|i s rid|i|i|rs flag| |w xs|x|i| | |i v|i v|k v| | |i|i|t|ck|t kv sts|t sts limit offset|t sts|ids sts| | | |flag|n| |i|i|i|k|i|r|a b|a b].
   all: try (shared_case H).
   all: try (match goal with
             | |- snd (idx_step _ _ _ _ ?o) = _ /\ _ =>
